@@ -2128,6 +2128,18 @@ class TrackFragmentHeaderBox(FullBox):
             rv["base_data_offset"] = parent.find_atom('moof').position
         return rv
 
+    def current_base_data_offset(self) -> int:
+        """
+        The offset that data offsets in this fragment are relative to.
+        Without an explicit base_data_offset that is the position of the
+        moof box, which might have moved since this box was parsed.
+        """
+        if (self.flags & self.base_data_offset_present) == 0 or self.base_data_offset is None:
+            moof = self.find_atom('moof', no_exception=True)
+            if moof is not None:
+                return moof.position
+        return self.base_data_offset
+
     def encode_box_fields(self, dest):
         if self.base_data_offset is None:
             self.base_data_offset = self.find_atom('moof').position
@@ -2662,7 +2674,7 @@ class SampleAuxiliaryInformationOffsetsBox(FullBox):
         tfhd = self.parent.find_child('tfhd')
         base_data_offset = None
         if tfhd is not None:
-            base_data_offset = tfhd.base_data_offset
+            base_data_offset = tfhd.current_base_data_offset()
         if base_data_offset is None:
             moof = self.find_atom('moof')
             base_data_offset = moof.position
@@ -2844,17 +2856,18 @@ class TrackFragmentRunBox(FullBox):
             return
         mdat_sample_start = moof.position + moof.size + mdat.header_size
 
-        first_sample_pos: int = moof.traf.tfhd.base_data_offset
+        base_data_offset: int = moof.traf.tfhd.current_base_data_offset()
+        first_sample_pos: int = base_data_offset
         if (self.flags & self.data_offset_present) != 0:
             first_sample_pos += self.data_offset
         if first_sample_pos != mdat_sample_start:
             self.options.log.debug(
                 'rewriting trun data_offset from %d to %d',
                 self.data_offset,
-                mdat_sample_start - moof.traf.tfhd.base_data_offset)
+                mdat_sample_start - base_data_offset)
             # data_offset is a signed field: the media data can precede an
             # explicit base_data_offset
-            self.data_offset = mdat_sample_start - moof.traf.tfhd.base_data_offset
+            self.data_offset = mdat_sample_start - base_data_offset
             cur = dest.tell()
             tfhd = moof.traf.tfhd
             if ((self.flags & self.data_offset_present) == 0 and
